@@ -55,8 +55,11 @@ func (s *state) sync(addrs stringset.Set) {
 		}
 	}
 
-	for addr := range s.healthy {
+	for addr := range s.all {
 		if !addrs.Has(addr) {
+			// Forget hosts which left, such that they are initialized as
+			// healthy if they ever rejoin.
+			s.all.Remove(addr)
 			s.healthy.Remove(addr)
 			delete(s.trend, addr)
 		}
